@@ -216,7 +216,8 @@ pub fn run(ctx: &Ctx, acc: &mut Acc) {
         "C10" => super::loops::run(&Ctx { prop: ctx.prop.clone(), tier: ctx.tier, seed: ctx.seed, shard: ctx.shard, nshards: ctx.nshards, budget: ctx.budget * 2 / 3, start: ctx.start }, acc, &isas),
         _ => {}
     }
-    let cfg = EmuConfig::default();
+    // C10 judges growth: the shape invariant (C09's business) must not end its runs early
+    let cfg = EmuConfig { enforce_shape: prop != "C10", ..EmuConfig::default() };
     let max_cases: u64 = if ctx.quick() { 3_000 } else { 10_000_000 };
     let mut i = 0u64;
     while ctx.time_left() && i < max_cases {
